@@ -18,16 +18,22 @@
   request that has been admitted and not yet cancelled, hence inside `[0, timeout)`
   (`pickup_wait_range`).
 
-  Partial: the lift of the four operation-level statements through `apply_instructions` and
-  `perform_vehicle_state_updates` to a single run-level theorem over `World` (state + log) is not
-  formalised (the invariant framework of `Proofs/Run.lean` is over `Sim` only). The run-level
-  statement, the file-writing handlers, the station load records and the summary are decided on
-  whole runs of the implementation by `Hive.EventLedger.violEvents` (events layer), and on
-  adversarial histories by comparing the model's events with the implementation's after every
-  phase (history layer).
+  Over whole runs (`Proofs.Books`: one walk through every function of the control model, lifted
+  through `apply_instructions`, `perform_vehicle_state_updates` and the other phases of the
+  cycle): `run_odometer_energy` — in every world (state + log) reachable from a state with an
+  empty log, by any history, each vehicle's odometer is its initial value plus the distances of
+  its move events and its energy gained the initial value plus the energies of its charge events;
+  pickups, cancellations: `C03.run_resolved_once`, `C03.run_none_vanishes`.
+
+  Partial: the file-writing handlers, the station load records (a per-step aggregate filed by the
+  reporter, not by the control functions) and the summary counts are outside the model; they are
+  decided on whole runs of the implementation by `Hive.EventLedger.violEvents` (events layer), and
+  the events themselves by comparing the model's with the implementation's after every phase of
+  adversarial histories (history layer).
 -/
 import Hive.EventLedger
 import Proofs.EnterPost
+import Proofs.Books
 import Mathlib.Tactic.Linarith
 import Mathlib.Tactic.Ring
 import Mathlib.Algebra.Order.Field.Rat
@@ -220,6 +226,23 @@ theorem dropoff_reports {w w2 : World} {v : VehicleId} {req : Request} (h : drop
 /-! ### not vacuous -/
 
 example : moveKm [.move 1 2 0, .move 2 5 0, .dropoff 1 7, .move 1 (1/2) 0] 1 = 5/2 := by decide +kernel
+
+/-! ### over whole runs -/
+
+/-- **per vehicle the distances of its move events sum to its odometer and the energies of its
+    charge events sum to the energy it gained** - every history of the complete cycle -/
+theorem run_odometer_energy {env : Env} (hg : Books.GainEnv env) {w0 w : World} (h : WReachable env w0 w)
+    (h0 : w0.log = []) {v : VehicleId} {veh0 veh : Vehicle} (hv0 : w0.sim.vehicle? v = some veh0)
+    (hv : w.sim.vehicle? v = some veh) :
+    veh.odo = veh0.odo + Books.moveKm w.log v ∧ veh.en.gained = veh0.en.gained + Books.charged w.log v := by
+  obtain ⟨a, _, c⟩ := Books.run_vehicle hg h h0 hv0 hv
+  exact ⟨a, c⟩
+
+/-- vehicles and stations neither appear nor disappear along a run -/
+theorem run_entities {env : Env} (hg : Books.GainEnv env) {w0 w : World} (h : WReachable env w0 w)
+    (v : VehicleId) (i : StationId) :
+    ((w.sim.vehicle? v).isSome = (w0.sim.vehicle? v).isSome) ∧ ((w.sim.station? i).isSome = (w0.sim.station? i).isSome) :=
+  Books.run_entities hg h v i
 
 end C19
 end Hive
